@@ -640,6 +640,9 @@ func checkProgram(c *kernel.RunCtx, p *program, seeded scribbleMode, nAttach int
 		r := &recorder{max: maxEvents}
 		var order []int
 		d := debug.NewDebugger()
+		if pass == 1 {
+			d = debug.NewDebugger(debug.WithRewind()) // the option door: documented to keep frames, nothing more
+		}
 		scrib := &recorder{mode: scribbleMode{on: true, all: true}}
 		for k := 0; k < nAttach; k++ {
 			k := k
